@@ -93,8 +93,8 @@ Definition relative_index (len : nat) (idx : Z) : option nat :=
   else if idx <? Z.of_nat len then Some (Z.to_nat idx) else None.
 
 Definition slicing_index (idx : Z) (len : nat) : nat :=
-  if idx <? 0 then (len - Nat.min (Z.to_nat (Z.abs idx)) len)%nat
-  else Nat.min (Z.to_nat idx) len.
+  if idx <? 0 then (len - Z.to_nat (Z.min (Z.abs idx) (Z.of_nat len)))%nat
+  else Z.to_nat (Z.min idx (Z.of_nat len)).
 
 Definition vector_get (v : list cell) (idx : Z) : M cell :=
   match relative_index (length v) idx with
@@ -178,13 +178,13 @@ Definition w_counter (n : nat) : M unit :=
     match value (l_items l) with
     | CNil => push_data (cint idx)
     | CMap m =>
-      if idx <? 0 then fail EInternal None else
+      if (idx <? 0) || (Z.of_nat (length m) <=? idx) then fail EInternal None else
       match nth_error m (Z.to_nat idx) with
       | Some (k, v) => push_data k ;; push_data v
       | None => fail EInternal None
       end
     | CVec v =>
-      if idx <? 0 then fail EInternal None else
+      if (idx <? 0) || (Z.of_nat (length v) <=? idx) then fail EInternal None else
       match nth_error v (Z.to_nat idx) with
       | Some x => push_data x
       | None => fail EInternal None
@@ -214,6 +214,7 @@ Definition w_get : M unit :=
   match value c with
   | CVec v =>
     let* idx := m_usize key in
+    if Z.of_nat (length v) <=? idx then fail EBounds None else
     match nth_error v (Z.to_nat idx) with
     | Some x => push_data x
     | None => fail EBounds None
@@ -366,7 +367,7 @@ Definition w_let_vec_at : M unit :=
 Definition w_let_vec_rest : M unit :=
   let* i := pop_data in let* n := m_usize i in
   let* c := top_data in let* v := m_vec c in
-  push_data (CVec (skipn (Z.to_nat n) v)).
+  push_data (CVec (skipn (Z.to_nat (Z.min n (Z.of_nat (length v)))) v)).
 
 (* formatting-tag words *)
 Definition flags_of (c : cell) : Z := match parse_fmt_flags c with Some f => f | None => fmt_default end.
